@@ -173,6 +173,14 @@ static std::vector<Scenario> make_scenarios(bool thorough) {
              {Op{"primes(70000)", [] { return H(primes(70000)) ^ H(factor(600851475u)); }}}}, 2);
     free_fn("H2.fft-large-prime-factor.t2",
             {{Op{"fft(514=2*257)", [] { return H(fft(cletter(514, 55))); }}}, {Op{"rfft(263)", [] { return H(rfft(rletter(263, 56))); }}}}, 2);
+    // big lengths (a size-dependent shortcut - shared tables, a process-wide plan slot - would only be taken here):
+    // two threads plan the same big length while a third plans a different one
+    {
+        auto bigfft = [](int n, uint64_t tag) { return Op{fmt("fft(%d)", n), [n, tag] { return H(fft(cletter(n, tag))); }}; };
+        free_fn("H2.fft-big-lengths.t3", {{bigfft(4096, 81)}, {bigfft(4096, 82)}, {bigfft(8192, 83)}}, 2);
+        free_fn("H2.fft-big-mixed.t2", {{bigfft(4096, 84), Op{"rfft(8192)", [] { return H(rfft(rletter(8192, 85))); }}},
+                                        {bigfft(6144, 86), bigfft(4096, 87)}}, 1);
+    }
     // ---- H3: random state is per thread
     free_fn("H3.rng.t2",
             {{Op{"rng(1)", [] {
@@ -291,7 +299,13 @@ static Exec run_exec(const Scenario& sc, const std::vector<int>& prefix, int onl
                 th.push_back([&sc, &res, t] {
                     for (auto& o : sc.prog[t]) {
                         vrt::op(o.label.c_str());
-                        uint64_t h = o.fn();
+                        uint64_t h;
+                        try {
+                            h = o.fn();
+                        } catch (const std::exception& ex) {   // an outcome like any other: compared with the reference
+                            h = 0xE0000000ull;
+                            for (const char* c = ex.what(); *c; ++c) h = mix(h, (uint64_t)(unsigned char)*c);
+                        }
                         res[t].push_back(h);
                     }
                 });
@@ -439,6 +453,7 @@ struct Explorer {
             ctx.transitions += e.out.points.size();
         }
         for (auto a : e.out.shared_sync) shared.insert(a);
+        if (!e.ok && full.size() < prefix.size()) full = prefix;   // no report came back: the prefix is what is known
         P par = P().kv("scenario", sc.name).kv("schedule", sched_str(full));
         if (!e.ok) {
             if (e.out.diverged) {
